@@ -46,6 +46,18 @@ def _func_span(src, qualname, setter=False):
 
 def apply_edit(root, edit):
     """edit: dict(file, func (optional), old, new, setter(optional), count(optional)).  Returns None on success or a reason."""
+    if "reverse_commit" in edit:
+        # re-introduce a repaired defect: apply the fix commit of /repo in reverse to the scratch copy
+        import subprocess
+
+        try:
+            diff = subprocess.run(["git", "-C", edit.get("repo", "/repo"), "show", "--format=", edit["reverse_commit"], "--", "atomica"], capture_output=True, check=True).stdout
+        except Exception as e:
+            return "fix commit %s not available: %s" % (edit["reverse_commit"], e)
+        r = subprocess.run(["patch", "-R", "-p1", "-s", "-f", "--no-backup-if-mismatch", "-d", str(root)], input=diff, capture_output=True)
+        if r.returncode != 0:
+            return "reverse patch of %s does not apply: %s" % (edit["reverse_commit"], (r.stdout + r.stderr).decode()[:120])
+        return None
     p = Path(root) / edit["file"]
     if not p.exists():
         return "file %s missing" % edit["file"]
